@@ -39,6 +39,16 @@ def ramp(shape, rng=None):
     return v.reshape(shape)
 
 
+def pick(case):
+    """A well-mixed 64-bit integer derived from the case's seed.  Variant selectors take residues of *this* (not of the raw seed):
+    consecutive cases of one kind have seeds that differ by a fixed stride, and a stride sharing a factor with the number of variants
+    would leave some variants unvisited for that kind under every seed."""
+    x = (int(case["cseed"]) + 0x9E3779B97F4A7C15) & 0xFFFFFFFFFFFFFFFF
+    x = ((x ^ (x >> 30)) * 0xBF58476D1CE4E5B9) & 0xFFFFFFFFFFFFFFFF
+    x = ((x ^ (x >> 27)) * 0x94D049BB133111EB) & 0xFFFFFFFFFFFFFFFF
+    return x ^ (x >> 31)
+
+
 def normals(rng, shape):
     return np.round(rng.standard_normal(shape), 6)
 
